@@ -34,7 +34,7 @@ def cfg_lay(tier):
 
 def cfg_par(tier):
     q = tier != "thorough"
-    return ["SPECIFICATION Spec", "CONSTANTS", f" Families <- {'FamQ' if q else 'FamAll'}", " PFaults <- PFaultAll",
+    return ["SPECIFICATION Spec", "CONSTANTS", f" Families <- {'FamQ' if q else 'FamAll'}", " PFaults <- PFaultAll", " Contexts <- CtxAll",
             "INVARIANT C17_ListedFaultsRefused", "INVARIANT Emit", "CHECK_DEADLOCK FALSE"]
 
 
@@ -177,6 +177,10 @@ def _mk(fam, **kw):
 def eval_param(i, scn):
     ck = Checker()
     fam, fault, want = scn["fam"], scn["fault"], scn["verdict"]
+    ctx = scn.get("ctx", "default")
+    ctxkw = {"default": {}, "plain": dict(center=False, standardize=False), "std": dict(standardize=True)}[ctx]
+    if fam in ("HilbertEOF", "ExtendedEOF", "OPA", "POP") and ctx == "plain":
+        ctxkw = dict(standardize=False) if fam in ("HilbertEOF", "ExtendedEOF") else ctxkw
     rng = np.random.default_rng(5)
     n, p = 12, 4
     X = xr.DataArray(rng.normal(size=(n, p)), dims=("time", "x"), coords=dict(time=np.arange(n), x=np.arange(p)))
@@ -188,40 +192,52 @@ def eval_param(i, scn):
     def fit(m, X_=X, Y_=Y, dim="time", **kw):
         return m.fit(X_, Y_, dim) if cross else m.fit(X_, dim, **kw)
 
+    _mk0 = _mk
+
+    def _mk_ctx(f, **kw):
+        k2 = dict(ctxkw)
+        k2.update(kw)
+        try:
+            return _mk0(f, **k2)
+        except TypeError:            # the class does not take the option: the context is the default one
+            return _mk0(f, **kw)
+
     def run():
         if fault == "nmodesAboveRank":
-            return fit(_mk(fam, n_modes=50, **({"n_pca_modes": 60} if fam in ("POP", "OPA") else {})))
+            return fit(_mk_ctx(fam, n_modes=50, **({"n_pca_modes": 60} if fam in ("POP", "OPA") else {})))
         if fault == "nmodesZero":
-            return fit(_mk(fam, n_modes=0))
+            return fit(_mk_ctx(fam, n_modes=0))
         if fault == "nmodesNegative":
-            return fit(_mk(fam, n_modes=-2))
+            return fit(_mk_ctx(fam, n_modes=-2))
         if fault == "nmodesString":
-            return fit(_mk(fam, n_modes="three"))
+            return fit(_mk_ctx(fam, n_modes="three"))
         if fault == "nmodesFloatAboveOne":
-            return fit(_mk(fam, n_modes=1.5))
+            return fit(_mk_ctx(fam, n_modes=1.5))
         if fault == "nmodesFloatZero":
-            return fit(_mk(fam, n_modes=0.0))
+            return fit(_mk_ctx(fam, n_modes=0.0))
         if fault == "alphaNegative":
-            return fit(_mk(fam, alpha=-0.5))
+            return fit(_mk_ctx(fam, alpha=-0.5))
         if fault == "alphaAboveOne":
-            return fit(_mk(fam, alpha=1.7))
+            return fit(_mk_ctx(fam, alpha=1.7))
         if fault == "solverUnknown":
-            return fit(_mk(fam, solver="cholesky"))
+            return fit(_mk_ctx(fam, solver="cholesky"))
         if fault == "fitNumpyInput":
-            return fit(_mk(fam), X_=np.asarray(X.values))
+            return fit(_mk_ctx(fam), X_=np.asarray(X.values))
         if fault == "fitListWithNumpy":
-            return fit(_mk(fam), X_=[X, np.asarray(X.values)])
+            return fit(_mk_ctx(fam), X_=[X, np.asarray(X.values)])
         if fault == "dimUnknown":
-            return fit(_mk(fam), dim="no_such_dim")
+            return fit(_mk_ctx(fam), dim="no_such_dim")
+        if fault == "dimPartlyUnknown":
+            return fit(_mk_ctx(fam), dim=("time", "tme"))
         if fault == "dimEmpty":
-            return fit(_mk(fam), dim=())
+            return fit(_mk_ctx(fam), dim=())
         if fault == "dimNotString":
-            return fit(_mk(fam), dim=3)
+            return fit(_mk_ctx(fam), dim=3)
         if fault == "weightsNumpy":
-            return fit(_mk(fam), weights=np.ones(p))
+            return fit(_mk_ctx(fam), weights=np.ones(p))
         if fault == "crossSampleCountMismatch":
-            return fit(_mk(fam), Y_=Y.isel(time=slice(0, n - 2)))
-        m = fit(_mk(fam))
+            return fit(_mk_ctx(fam), Y_=Y.isel(time=slice(0, n - 2)))
+        m = fit(_mk_ctx(fam))
         if fault == "transformNumpyInput":
             return m.transform(np.asarray(X.values), np.asarray(Y.values)) if cross else m.transform(np.asarray(X.values))
         sc = m.scores()
